@@ -1081,9 +1081,9 @@ func (Area) Gen(r *rand.Rand, tier string, emit func(string)) {
 	for b := 0; b < 256; b++ {
 		emit("esc " + CB([]byte{byte(b)}))
 	}
-	nEsc, nHTTP, nWS := 600, 300, 150
+	nEsc, nHTTP, nWS := 1500, 1200, 600
 	if tier == "thorough" {
-		nEsc, nHTTP, nWS = 20000, 20000, 5000
+		nEsc, nHTTP, nWS = 30000, 30000, 10000
 	}
 	for i := 0; i < nEsc; i++ {
 		switch r.Intn(3) {
